@@ -4,7 +4,7 @@ import json, os, re, signal, subprocess, sys, time, random, hashlib, shutil, tem
 
 VERIF = os.path.abspath(os.path.join(os.path.dirname(__file__), "..", ".."))
 REPO = os.environ.get("VERIF_REPO", "/repo")
-COQ = os.path.join(VERIF, "coq")
+COQ = os.environ.get("VERIF_COQ_DIR") or os.path.join(VERIF, "coq")     # a private copy (with ../translator beside it) lets runs against scratch worktrees go in parallel
 BUILD = os.path.join(VERIF, "build")
 PY = "/venv/bin/python"
 GUARD = "TE_DENSITY_VERIF"
